@@ -81,6 +81,10 @@ type KeyStore struct {
 	encryptor           keystore.KeyEncryptor
 	cacheEncryptor      keystore.KeyEncryptor
 	encryptorCtx        context.Context
+	// historyLock and historyGeneration keep a list of historical filenames read before a rotation
+	// from being cached after the rotation has invalidated it
+	historyLock       sync.Mutex
+	historyGeneration uint64
 }
 
 // NewFileSystemKeyStoreWithCacheSize represents keystore that reads keys from key folders, and stores them in cache.
@@ -483,10 +487,30 @@ func (store *KeyStore) cacheHistoricalPrivateKeyFilenames(id string, paths []str
 	return nil
 }
 
+// cacheHistoricalPrivateKeyFilenamesOfGeneration caches the list unless some key was rotated or destroyed
+// since the given generation, i.e. while the list was being read from the storage
+func (store *KeyStore) cacheHistoricalPrivateKeyFilenamesOfGeneration(id string, paths []string, generation uint64) error {
+	store.historyLock.Lock()
+	defer store.historyLock.Unlock()
+	if store.historyGeneration != generation {
+		return nil
+	}
+	return store.cacheHistoricalPrivateKeyFilenames(id, paths)
+}
+
 // invalidateHistoricalPrivateKeyFilenames drops cached list of historical filenames of the key file with given path.
 // It has to be called whenever the key file or its history changes: rotation, destruction.
 func (store *KeyStore) invalidateHistoricalPrivateKeyFilenames(path string) {
+	store.historyLock.Lock()
+	store.historyGeneration++
 	store.cache.Add(cacheKeyPrefix+filepath.Clean(path), nil)
+	store.historyLock.Unlock()
+}
+
+func (store *KeyStore) currentHistoryGeneration() uint64 {
+	store.historyLock.Lock()
+	defer store.historyLock.Unlock()
+	return store.historyGeneration
 }
 
 // GetHistoricalPrivateKeyFilenames return filenames for current and rotated keys
@@ -506,6 +530,7 @@ func (store *KeyStore) GetHistoricalPrivateKeyFilenames(filename string) ([]stri
 			Errorln("Can't get cache value of historical private key filenames")
 	}
 
+	generation := store.currentHistoryGeneration()
 	paths, err = getHistoricalFilePaths(fullPath, store.fs)
 	if err != nil {
 		return nil, err
@@ -517,7 +542,7 @@ func (store *KeyStore) GetHistoricalPrivateKeyFilenames(filename string) ([]stri
 		}
 		paths[i] = p
 	}
-	if err := store.cacheHistoricalPrivateKeyFilenames(fullPath, paths); err != nil {
+	if err := store.cacheHistoricalPrivateKeyFilenamesOfGeneration(fullPath, paths, generation); err != nil {
 		// log but don't return error to continue processing. less performance, more stability
 		log.WithField(logging.FieldKeyEventCode, logging.EventCodeErrorCacheIssues).
 			WithError(err).
